@@ -77,6 +77,7 @@ def clsOf (f : String) (i : Item) : Cls :=
   | "BlockHeader.Validate", "!=", "len(self.PreviousBlockID)", "crypto.HashLengh", "errorf" => .rule .vPrevLen
   | "BlockHeader.Validate", "!=", "len(self.GeneratorAddress)", "AddressLength", "errorf" => .rule .vGenLen
   | "BlockHeader.Validate", "!=", "len(self.Signature)", "crypto.EdSignatureLength", "new" => .rule .vSigLen
+  | "BlockHeader.Validate", "!=", "len(self.StateRoot)", "crypto.HashLengh", "errorf" => .rule .vStateRootLen
   | "BlockAssets.Valid", "!=", "make(BlockAssets, len(self))[*].Module", "self[*].Module", "new" => .rule .assetsOrder
   | "BlockAssets.Valid", "is", "map[string]bool{}[self[*].Module]#1", "", "new" => .rule .assetsDup
   -- verifyBlock
@@ -249,7 +250,7 @@ transaction, in payload order, between the header lengths and the transaction ro
 theorem C03_gen_validate_order (b : Cand) :
     (validateChecks b).map (·.1) = inst (cnt b) (rulesOf flatValidate) := by
   have h : runs (rulesOf flatValidate) =
-      [(none, [.vPrevLen, .vGenLen, .vSigLen]), (some "range(self.Transactions)", [.txStatic]), (none, [.txRoot]),
+      [(none, [.vPrevLen, .vGenLen, .vSigLen, .vStateRootLen]), (some "range(self.Transactions)", [.txStatic]), (none, [.txRoot]),
        (some "range(self)", [.assetsOrder, .assetsDup]), (none, [.assetRoot])] := by decide +kernel
   simp [inst, h, cnt, validateChecks, List.map_append, List.map_map, Function.comp_def, map_const_replicate,
     replicate_singleton_flatten]
@@ -284,6 +285,14 @@ theorem C03_gen_rule_vSigLen (b : Cand) :
     (Err.vSigLen, !VS.g_BlockHeader_Validate_Signature b.sigLen) ∈ validateChecks b := by
   refine ⟨by decide +kernel, ?_⟩
   simp [validateChecks, VS.g_BlockHeader_Validate_Signature]
+
+/-- fix 4d58fae: an empty (or otherwise non-32-byte) `stateRoot` is refused statically — the application's `Commit`
+skips the comparison for an empty expected root -/
+theorem C03_gen_rule_vStateRootLen (b : Cand) :
+    guardOf "BlockHeader.Validate" .vStateRootLen = [("g_BlockHeader_Validate_StateRoot", ["len(self.StateRoot)"])] ∧
+    (Err.vStateRootLen, !VS.g_BlockHeader_Validate_StateRoot b.stateRootLen) ∈ validateChecks b := by
+  refine ⟨by decide +kernel, ?_⟩
+  simp [validateChecks, VS.g_BlockHeader_Validate_StateRoot]
 
 theorem C03_gen_rule_txStatic : (none, Cls.rule .txStatic) ∈ flatValidate.map (fun p => (p.1.find? (· != "range(self.Transactions)"), p.2)) := by decide +kernel
 theorem C03_gen_rule_txRoot : ([], Cls.rule .txRoot) ∈ flatValidate := by decide +kernel
@@ -671,7 +680,7 @@ theorem C03_gen_process_writes :
 
 /-! ### non-vacuity -/
 
-example : (rulesOf flatValidate).length = 8 ∧ (rulesOf flatVerify).length = 11 ∧ (rulesOf flatAC).length = 7 ∧
+example : (rulesOf flatValidate).length = 9 ∧ (rulesOf flatVerify).length = 11 ∧ (rulesOf flatAC).length = 7 ∧
     (rulesOf flatPV).length = 16 := by decide +kernel
 
 example : inst (fun _ => 2) (rulesOf (flatPV.tail)) =
